@@ -269,7 +269,7 @@ async def maildir_scenario(prog):
     LISTSCRIPTS; a script listed ACTIVE cannot be deleted"""
     from .imapdrv import MaildirWorld
     errors = []
-    w = await MaildirWorld(layout='++').start()
+    w = await MaildirWorld(layout='++', time_budget=30.0).start()
     c = SieveClient(w, 'c')
     sig = []
     try:
